@@ -22,6 +22,7 @@ py_lower = z3.Function("py_lower", z3.StringSort(), z3.StringSort())
 py_upper = z3.Function("py_upper", z3.StringSort(), z3.StringSort())
 py_strip = z3.Function("py_strip", z3.StringSort(), z3.StringSort())
 py_rep = z3.Function("py_rep", z3.StringSort(), z3.IntSort(), z3.StringSort())
+py_replace = z3.Function("py_replace", z3.StringSort(), z3.StringSort(), z3.StringSort(), z3.StringSort())
 py_float_str = z3.Function("py_float_str", z3.RealSort(), z3.StringSort())
 py_str_float = z3.Function("py_str_float", z3.StringSort(), z3.RealSort())
 py_str_int = z3.Function("py_str_int", z3.StringSort(), z3.IntSort())
@@ -31,6 +32,7 @@ UF_NATIVE = {
     "py_upper": lambda s: s.upper(),
     "py_strip": lambda s: s.strip(),
     "py_rep": lambda s, n: s * n,
+    "py_replace": lambda s, a, b: s.replace(a, b),
 }
 
 
@@ -481,12 +483,10 @@ _keep = []
 def replace_all(x, a, b):
     if not is_sym(x) and not is_sym(a) and not is_sym(b):
         return x.replace(a, b)
-    tx, ta, tb = term(x), term(a), term(b)
-    _keep.extend([tx, ta, tb])
-    # Python's replace with an empty pattern inserts between characters; SMT-LIB's replace_all with an
-    # empty pattern is the identity. The verified code never passes an empty pattern (the quote is 1 char).
-    e = z3.SeqRef(z3.Z3_mk_seq_replace_all(tx.ctx_ref(), tx.as_ast(), ta.as_ast(), tb.as_ast()), tx.ctx)
-    return Sym(STR, e)
+    # str.replace is an uninterpreted py_replace for z3 (whose sequence solver answers "unknown" as soon as
+    # str.replace_all occurs) constrained by axioms_for + ground refinement; the cvc5 fallback reads it as
+    # SMT-LIB str.replace_all (equal to Python's replace for a non-empty pattern).
+    return Sym(STR, py_replace(term(x), term(a), term(b)))
 
 
 def _norm_index(i, n):
@@ -594,6 +594,7 @@ def _collect_apps(t, names, acc, seen):
 
 
 WS_CHARS = " \t\n\r\x0b\x0c"
+DELIMS = "()[]{}/'\"# "
 
 
 def axioms_for(formulas):
@@ -602,14 +603,40 @@ def axioms_for(formulas):
     *not* assumed: it is false for e.g. U+0130)."""
     apps, seen = [], set()
     for f in formulas:
-        _collect_apps(f, {"py_lower", "py_upper", "py_strip", "py_rep"}, apps, seen)
+        _collect_apps(f, {"py_lower", "py_upper", "py_strip", "py_rep", "py_replace"}, apps, seen)
     out = []
     done = set()
+    # constant ASCII prefixes / suffixes tested on x carry over to lower(x) / upper(x)
+    # (case mapping is a character-wise homomorphism on ASCII text)
+    fixes, seen2 = [], set()
+    for f in formulas:
+        _collect_apps(f, {"str.prefixof", "str.suffixof"}, fixes, seen2)
+    casemaps = [a for a in apps if a.decl().name() in ("py_lower", "py_upper")]
+    for fx in fixes:
+        c, x = fx.arg(0), fx.arg(1)
+        if not z3.is_string_value(c):
+            continue
+        cs = c.as_string()
+        if not cs or not cs.isascii() or "\\" in cs:
+            continue
+        for a in casemaps:
+            if a.arg(0).eq(x):
+                img = cs.lower() if a.decl().name() == "py_lower" else cs.upper()
+                mk = z3.PrefixOf if fx.decl().name() == "str.prefixof" else z3.SuffixOf
+                out.append(z3.Implies(fx, mk(z3.StringVal(img), a)))
     for a in apps:
         if a.get_id() in done:
             continue
         done.add(a.get_id())
         n = a.decl().name()
+        if n in ("py_lower", "py_upper"):
+            # case mapping works character by character and never creates, removes or moves an ASCII
+            # delimiter: the first / last character of the image is a given delimiter iff it is of the argument
+            x = a.arg(0)
+            for ch in DELIMS:
+                c = z3.StringVal(ch)
+                out.append(z3.PrefixOf(c, a) == z3.PrefixOf(c, x))
+                out.append(z3.SuffixOf(c, a) == z3.SuffixOf(c, x))
         if n == "py_lower":
             out.append(py_lower(a) == a)                      # lower is idempotent
             out.append(py_lower(py_upper(py_lower(a.arg(0)))) == a)  # lower∘upper∘lower = lower (true for all code points? validated by bounded check)
@@ -632,6 +659,15 @@ def axioms_for(formulas):
             nolead = z3.And(*[z3.Not(z3.PrefixOf(z3.StringVal(ch), x)) for ch in WS_CHARS + "\x1c\x1d\x1e\x1f\x85\xa0"])
             notrail = z3.And(*[z3.Not(z3.SuffixOf(z3.StringVal(ch), x)) for ch in WS_CHARS + "\x1c\x1d\x1e\x1f\x85\xa0"])
             out.append(z3.Implies(z3.And(nolead, notrail, _ascii_ends(x)), a == x))
+        elif n == "py_replace":
+            x, pat, new = a.arg(0), a.arg(1), a.arg(2)
+            # a pattern that does not occur is not replaced
+            out.append(z3.Implies(z3.Not(z3.Contains(x, pat)), a == x))
+            out.append(z3.Implies(pat == new, a == x))
+            if z3.is_string_value(pat):
+                # if the pattern occurs, each of its characters occurs
+                for ch in set(pat.as_string()) if len(pat.as_string()) <= 4 and "\\u" not in pat.as_string() else ():
+                    out.append(z3.Implies(z3.Contains(x, pat), z3.Contains(x, z3.StringVal(ch))))
         elif n == "py_rep":
             s, k = a.arg(0), a.arg(1)
             out.append(z3.Implies(k <= 0, a == z3.StringVal("")))
